@@ -47,6 +47,15 @@ LAYOUTS["L3"] = dict(LAYOUTS["L1"])
 for _i, _eid in enumerate([fed.SP_EID + "\u00a0", fed.SP_EID + " ", "\u2003" + fed.SP_EID, fed.SP_EID.replace("https://sp.", "https://SP."), fed.SP_EID + "/"]):
     LAYOUTS["L3"][_eid] = {"acs": [(POST, "%s/%d" % (_COLLECT, _i), 1, True), (REDIR, "%s/%d/r" % (_COLLECT, _i), 2, None)], "slo": [(POST, "%s/%d/slo" % (_COLLECT, _i))],
                            "mni": [(SOAP, "%s/%d/mni" % (_COLLECT, _i))]}
+# the SPs' SAML 1.x role descriptors (same entity, same role element, another protocol) register consumers of their own, with the same indexes
+# as the SAML 2.0 ones: a SAML 2.0 request is never answered there
+for _ln, _first in (("L5", False), ("L6", True)):
+    LAYOUTS[_ln] = {}
+    for _eid, _d in LAYOUTS["L1"].items():
+        _h = _eid.rsplit("/", 1)[0]
+        LAYOUTS[_ln][_eid] = dict(_d, saml11={"first": _first, "sp": {"keys": [("signing", 9)], "acs": [(POST, _h + "/legacy/acs", 1, True), (REDIR, _h + "/legacy/acs-r", 3, None),
+                                                                                                        (POST, _h + "/legacy/acs9", 9, None)],
+                                                                       "slo": [(REDIR, _h + "/legacy/slo"), (POST, _h + "/legacy/slo-post")], "mni": [(SOAP, _h + "/legacy/mni")]}})
 # ... and the same with the look-alikes in front of the real SP
 LAYOUTS["L4"] = dict([(k, v) for k, v in LAYOUTS["L3"].items() if k not in LAYOUTS["L1"]] + list(LAYOUTS["L1"].items()))
 
@@ -200,7 +209,10 @@ def _idp(ctx, lname, idpopt="default"):
     def build():
         mds = []
         for eid, d in LAYOUTS[lname].items():
-            mds.append(mdgen.entity({"eid": eid, "sp": {"keys": [("signing", 1 if eid == fed.SP_EID else 3)], "acs": d["acs"], "slo": d["slo"], "mni": d["mni"]}}))
+            ent = {"eid": eid, "sp": {"keys": [("signing", 1 if eid == fed.SP_EID else 3)], "acs": d["acs"], "slo": d["slo"], "mni": d["mni"]}}
+            if d.get("saml11"):
+                ent["saml11"] = d["saml11"]
+            mds.append(mdgen.entity(ent))
         idc = fed.idp_conf()
         if idpopt == "want-signed":
             idc["service"]["idp"]["want_authn_requests_signed"] = True
